@@ -228,6 +228,13 @@ def decide(pid, tier, seed):
             continue
         f['replay'] = rp
         real_violations.append(f)
+    for name in cfg.get('e3_always', []):
+        # bounded stand-in for a function that is outside the verifiers' reach: labelled bounded, never counted as proved
+        rp = replay.search(pid, {'fn': name}, seed)
+        bounded.append({'name': 'e3/' + name, 'bound': rp.get('how', 'enumerator (see replay/src/searches.rs)') if not rp.get('found') else 'enumerator', 'status': 'failed' if rp.get('found') else 'held'})
+        if rp.get('found'):
+            real_violations.append({'obligation': 'e3/%s' % name, 'kind': 'bounded-stand-in', 'fn': name,
+                                    'clause': 'bounded stand-in for %s' % name, 'detail': rp.get('how', ''), 'msg': rp.get('how', ''), 'replay': rp})
     if undecided and not real_violations:
         # the verifier could not decide: bounded stand-in (E3 enumerators on the real crate); it can only
         # ever add a violation that comes with a reproducing input, never remove an undecided verdict
